@@ -15,6 +15,10 @@ import (
 )
 
 func (ctrler *EVMCtrler) Query(req abcitypes.RequestQuery) ([]byte, xerrors.XError) {
+	if len(req.Data) < types.AddrSize*2 {
+		// `req.Data` should be `from(20bytes) + to(20bytes) + data`
+		return nil, xerrors.ErrInvalidQueryParams
+	}
 	from := req.Data[:types.AddrSize]
 	to := req.Data[types.AddrSize : types.AddrSize*2]
 	data := req.Data[types.AddrSize*2:]
